@@ -40,6 +40,9 @@ def _settings(draw, c, g=None):
             c["interval"] = [lo, hi] if lo < hi else None
     c["ri"] = draw(st.booleans())
     c["compiled"] = draw(st.booleans())
+    # the (valid) trains are handed over with Reconcile=False: the very same objects
+    # then reach the kernels in both argument orders
+    c["reconcile_off"] = draw(st.sampled_from([False, False, True]))
     return c
 
 
@@ -152,6 +155,8 @@ def run_case(case, ctx):
     for meas in ("ISI", "SPIKE", "SYNC"):
         fn = M.funcs(meas)
         kw = M.kwargs_for(meas, case)
+        if case.get("reconcile_off"):
+            kw["Reconcile"] = False
         f = ctx.call(meas + "_profile", fn["profile"], st1, st2, **kw)
         g = ctx.call(meas + "_profile_swapped", fn["profile"], st2, st1, **kw)
         d = ctx.call(meas + "_value", fn["dist"], st1, st2, **ivk, **kw)
